@@ -268,7 +268,7 @@ def gen_lines(ctx):
             add(list(seq), "01")
     n_exh = len(lines) - n_corpus
     rng = ctx.rng
-    N = 40000 if ctx.thorough else 2500
+    N = 40000 if ctx.thorough else 6000
     for _ in range(N):
         add(V.rand_sequence(rng, rng.choice([3, 5, 8, 8, 12, 12, 16])))
     return lines, opss, n_corpus, n_exh
